@@ -25,12 +25,12 @@ def Seg.encode : Seg → Bytes
   | .exif t => 0xFF :: 0xE1 :: (be16 (t.length + 8) ++ (exifPrefix ++ t))
   | .xmp k => 0xFF :: 0xE1 :: (be16 (k.length + 31) ++ (xmpPrefix ++ k))
 
-/-- well-formedness: the length fits its 16-bit field; a skipped marker is none of SOI/EOI/DQT/DRI; a skipped
+/-- well-formedness: the length fits its 16-bit field; a skipped marker is none of SOI/EOI/DQT/DRI and not 0xFF (a fill byte, no marker code); a skipped
 APP1 segment is long enough for the prefix recognisers to look only at its own payload and carries neither
 metadata prefix -/
 def Seg.wf : Seg → Prop
   | .skip mk p => p.length + 2 < 65536 ∧ mk ≠ 0xD8 ∧ mk ≠ 0xD9 ∧ mk ≠ 0xDB ∧ mk ≠ 0xDD ∧
-      (mk = 0xE1 → 29 ≤ p.length ∧ p.take 6 ≠ exifPrefix ∧ p.take 29 ≠ xmpPrefix)
+      (mk = 0xE1 → 29 ≤ p.length ∧ p.take 6 ≠ exifPrefix ∧ p.take 29 ≠ xmpPrefix) ∧ mk ≠ 0xFF
   | .dri _ _ => True
   | .exif t => 8 ≤ t.length ∧ t.length + 8 < 65536
   | .xmp k => k.length + 31 < 65536
